@@ -91,7 +91,7 @@ func (this *RGBLuminanceSource) IsCropSupported() bool {
 }
 
 func (this *RGBLuminanceSource) Crop(left, top, width, height int) (LuminanceSource, error) {
-	if left+width > this.dataWidth || top+height > this.dataHeight {
+	if this.left+left+width > this.dataWidth || this.top+top+height > this.dataHeight {
 		return nil, errors.New("IllegalArgumentException: Crop rectangle does not fit within image data")
 	}
 	return &RGBLuminanceSource{
